@@ -71,18 +71,26 @@ class _InMemoryConsumer(ConsumerT):
         [self._queue.delayed.pop(i) for i in pop_soon]
 
     def __consume_normal(self) -> Message | None:
-        try:
+        # take the first suitable message; the messages which are skipped (other topics) go
+        # through a full rotation of the queue, so that their order stays as it was
+        found: Message | None = None
+        skipped = False
+        for _ in range(self._queue.simple.qsize()):
             msg = self._queue.simple.get_nowait()
-        except asyncio.QueueEmpty:
-            return None
-        if msg.parameters.is_overdue:  # ttl expired
-            self._queue.dead.append(msg)
-            return None
-        if self.topics and msg.key.topic not in self.topics:  # topics don't match
-            self._queue.simple.put_nowait(msg)
-            return None
-        self._queue.origins[msg.key.id_] = (self.category, None, self)
-        return msg
+            if found is None:
+                if msg.parameters.is_overdue:  # ttl expired
+                    self._queue.dead.append(msg)
+                    continue
+                if not self.topics or msg.key.topic in self.topics:
+                    found = msg
+                    if not skipped:
+                        break  # nothing was moved: the rest of the queue is untouched
+                    continue
+            skipped = True
+            self._queue.simple.put_nowait(msg)  # topics don't match
+        if found is not None:
+            self._queue.origins[found.key.id_] = (self.category, None, self)
+        return found
 
     def __consume_delayed(self) -> Message | None:
         if not self._queue.delayed:
